@@ -1,6 +1,8 @@
 package main
 
 import (
+	"strconv"
+	"regexp"
 	"fmt"
 	"go/types"
 	"sort"
@@ -43,6 +45,8 @@ func runC02(p *Program, r *Report) {
 	c02flush(p, r, "C02.flush")
 	cFramePayload(p, r, "C02.payload")
 }
+
+var bytesLenRe = regexp.MustCompile(`^\(len\(call:CloseError\.bytes@[^ ]*\) > (\d+)\)$`)
 
 // emitterSites: call sites that operate on the connection's bufio.Writer or write to rwc.
 func emitterSites(p *Program) []callSite {
@@ -822,6 +826,26 @@ func c02close(p *Program, r *Report, rule string) {
 					// payload = 2+len bytes, code big-endian at 0, reason copied at 2
 					buf := pa.Ret[0]
 					e, ok := buf.(*Expr)
+					if ok && e.Op == "call" && strings.HasPrefix(e.Name, "builtin append@") && len(e.Args) == 2 && keyIs(stripConvAll(e.Args[1]), "param:ce.Reason") {
+						// the append spelling: append(BigEndian.AppendUint16(<empty>, uint16(code)), reason...)
+						vc := pa.Calls("validWireCloseCode")
+						if in, ok := e.Args[0].(*Expr); ok && in.Op == "call" && strings.HasPrefix(in.Name, "(binary.bigEndian).AppendUint16@") && len(in.Args) == 3 &&
+							keyIs(in.Args[2], "convert:uint16(param:ce.Code)") && len(vc) == 1 && keyIs(vc[0].Args[0], "param:ce.Code") {
+							empty := false
+							if c, isC := in.Args[1].(*Const); isC && c.IsNil {
+								empty = true
+							}
+							if ms, isE := in.Args[1].(*Expr); isE && ms.Op == "makeslice" {
+								if n, ok := avInt(ms.Args[0]); ok && n == 0 {
+									empty = true
+								}
+							}
+							if empty {
+								return "MARSHAL"
+							}
+						}
+						return "OK-MALFORMED"
+					}
 					if !ok || e.Op != "makeslice" {
 						return "OK-" + buf.Key()
 					}
@@ -862,6 +886,12 @@ func c02close(p *Program, r *Report, rule string) {
 				return func(key string, cond AV) (bool, bool) {
 					if strings.HasPrefix(key, "(call:CloseError.bytes@") {
 						return v.Bool("bytes-ok"), true
+					}
+					// the payload bytes() returns is at most 2+123 bytes (C02.close.bytesErr): a re-check of that bound never fires
+					if m := bytesLenRe.FindStringSubmatch(key); m != nil {
+						if n, err := strconv.Atoi(m[1]); err == nil && n >= 125 {
+							return false, true
+						}
 					}
 					return false, false
 				}
